@@ -170,6 +170,11 @@ class Check:
             specs.append({"name": f"gen-{sd}", "src": ["gen", {"seed": sd}], "policy": pols[s % 4], "seed": sd,
                           "episodes": 3, "steps": 48 if q else 96, "max_len": 24 if s % 2 else None,
                           "mid_reset_at": 9 if s % 3 == 0 else None})
+        for s in range(12 if q else 64):  # two LANs joined over the air by wireless routers (family chosen explicitly: older seeds keep their scenarios)
+            sd = seed * 1000 + 300 + s
+            specs.append({"name": f"gen-wlan-{sd}", "src": ["gen", {"seed": sd, "family": "wlan", "knobs": {"max_actions": 1000} if s % 3 == 0 else {}}],
+                          "policy": "sweep" if s % 3 == 0 else pols[s % 4], "seed": sd, "episodes": 2, "steps": 260 if s % 3 == 0 else (48 if q else 96),
+                          "max_len": None if s % 3 == 0 else (24 if s % 2 else None), "mid_reset_at": 9 if s % 4 == 1 else None})
         # the defender acts LAST and on the very component a scripted agent used in its last turn (two actors on one component in one step)
         for s in range(32 if q else 128):
             sd = seed * 1000 + 600 + s
